@@ -15,3 +15,5 @@ require (
 replace wire => ./wire
 
 require gopkg.in/yaml.v3 v3.0.1
+
+require github.com/pelletier/go-toml/v2 v2.2.3
